@@ -160,6 +160,20 @@ func scenarios(r *vh.Run, wait time.Duration) []Scenario {
 		}
 	}
 
+	// ---- E2. sender backlog: one-segment writes faster than the network takes them, until the send queue is as full as
+	// writeChunk lets it become; Close at the instant a successful Write has left no free slot (never, if the slot for the
+	// close request is kept), otherwise after the last Write
+	for _, cl := range closers {
+		add(Scenario{Name: "sendq-full", Transport: "udp", Closer: cl, N: 6000 * 4, Writes: 6000, WriteSize: 4, CloseWhenFull: true})
+	}
+	for _, cl := range closers {
+		// 32 KiB writes = 25 fragments per Write over a bandwidth-limited path (one datagram per ms): a Write returns as soon
+		// as the queue moves, so the writer outruns the path and the queue fills as far as writeChunk lets it; if no Write ever
+		// left it full, the closer waits until the backlog has shrunk to an eighth, so that the rest drains well within the
+		// bounded wait of a graceful close
+		add(Scenario{Name: "sendq-full-paced", Transport: "udp", Closer: cl, N: 400 * 32768, Writes: 400, WriteSize: 32768, CloseWhenFull: true, Latency: 2 * ms, Pace: 1 * ms})
+	}
+
 	// ---- F. receiver backlog: many one-segment writes, the peer application does not read before the closer's Close
 	// has returned (TCP) / before T (UDP, where the closed receive window stops the writer).  Counts sit around the
 	// receiver's capacities: recvChan 256, recvQueue 4096, 4096+1+256 = 4353.
